@@ -1,7 +1,7 @@
 """C04 — negation and aggregation see the complete relation, each tuple once."""
 from . import core, eng, gen, engcheck
 
-THEOREMS = ["agg_view_each_once", "run_agg_eq_model", "agg_sees_final", "run_agg_rows_set", "run_agg_from_eq_model", "agg_view_each_once_from", "run_agg_eq_model_from", "second_run_agg_view_each_once", "second_run_view_witness", "runPhys_agg_eq_model", "runND_agg_spec", "run_is_RunND_agg", "neg_hyps", "aggPlanOk_ixSetsOfA", "planOk_ixSetsOfA", "runPhys_agg_compiled_eq_model", "run_mixed_lattice_key_unique", "run_mixed_lattice_view_once", "agg_over_lattice_one_row_per_key", "agg_item_reads_view_iter", "distAgg_run", "distAgg_intermediate", "run_mixed_closed", "run_mixed_least", "run_mixed_closed_items", "run_mixed_least_items", "LClosedA_iff_of_aggFree", "distAgg_finalAggView"]
+THEOREMS = ["agg_view_each_once", "run_agg_eq_model", "agg_sees_final", "run_agg_rows_set", "run_agg_from_eq_model", "agg_view_each_once_from", "run_agg_eq_model_from", "second_run_agg_view_each_once", "second_run_view_witness", "runPhys_agg_eq_model", "runND_agg_spec", "run_is_RunND_agg", "neg_hyps", "aggPlanOk_ixSetsOfA", "planOk_ixSetsOfA", "runPhys_agg_compiled_eq_model", "run_mixed_lattice_key_unique", "run_mixed_lattice_view_once", "agg_over_lattice_one_row_per_key", "agg_item_reads_view_iter", "distAgg_run", "distAgg_intermediate", "run_mixed_closed", "run_mixed_least", "run_mixed_closed_items", "run_mixed_least_items", "distAgg_finalAggView"]
 TRUSTED = ["Props/C04Lat.lean (Proofs/AggLatInv.lean): programs with BOTH lattices and aggregation / negation (abstract engine, serial) - for every stratified program an aggregate or negation that ranges over a lattice relation of a "
            "lower stratum reads, at every iteration and rule boundary of its stratum, exactly one row per key of the lattice, carrying the value the lattice has in the FINAL result (agg_over_lattice_one_row_per_key, "
            "agg_item_reads_view_iter); one row per lattice key after run() for ANY program with declared heads (run_mixed_lattice_key_unique, no stratification / order / arity hypothesis); non-vacuity distAgg_run / "
